@@ -10,8 +10,11 @@ let parse_opts (s : string) =
   let strict = s.[1] = '1' and links = s.[3] = '1' and beyond = s.[5] = '1' in
   let rest = String.sub s 7 (String.length s - 7) in
   let i = String.index rest 'd' in
+  let j = String.index rest 't' in
   let budget = int_of_string (String.sub rest 0 i) in
-  let depth = int_of_string (String.sub rest (i + 1) (String.length rest - i - 1)) in
+  let depth = int_of_string (String.sub rest (i + 1) (j - i - 1)) in
+  (* t1 = permissive assembler target; only used in strict mode, where the decoder itself refuses
+     repeated keys, so the model is the same *)
   (strict, links, beyond, budget, depth)
 
 let rec firstn n l = if n = 0 then [] else match l with [] -> [] | x :: r -> x :: firstn (n - 1) r
